@@ -7,7 +7,8 @@
    introspection meta fields, and for a field the parent does not define). *)
 From PyGql Require Import Valid.ValidOverlap Spec.ValidSpec Spec.ValidLocalSpec Proofs.ValidCloseProofs
      Proofs.ValidGraphProofs Proofs.ValidVarProofs Proofs.ValidStaticProofs Proofs.ValidLocalProofs
-     Proofs.ValidMergeProofs Proofs.ValidFuelProofs Proofs.ValidRuntimeProofs Proofs.ValidMemoProofs.
+     Proofs.ValidMergeProofs Proofs.ValidFuelProofs Proofs.ValidRuntimeProofs.
+From PyGql Require Import Proofs.ValidMemoProofs.
 From Coq Require Import Lia.
 
 Definition lookups_agree (s : schema) (d : document) : Prop :=
@@ -156,6 +157,7 @@ Section Locs.
   Hypothesis H6 : spec_fragments_on_composite s d.
   Hypothesis Hagree : lookups_agree s d.
   Let M := M_of s (doc_events s d).
+  Let locs := selset_locs (doc_events s d).
 
   Lemma cond_parent t : composite_condition s t -> ov_type_name s t = composite_name s (type_from_ast s t).
   Proof. intros [n [E Hc]]. unfold ov_type_name. rewrite E. simpl. rewrite Hc. reflexivity. Qed.
@@ -173,7 +175,7 @@ Section Locs.
   Qed.
 
   Lemma visited_mok : forall n p l sels, visited s d p l sels -> sels_h sels <= n ->
-    mok s M (fst (fields_and_fragments s p sels)).
+    mok s M locs (fst (fields_and_fragments s p sels)).
   Proof.
     induction n as [|n IH]; intros p l sels Hv Hh k fs f Hk Hf.
     - (* no field with a sub-selection fits in height 0 *)
@@ -189,14 +191,14 @@ Section Locs.
       assert (EM : M l1 = fst (fields_and_fragments s
                 (option_map unwrap match ov_field_def s po' (n_val nm) with Some d0 => Some (sf_type d0) | None => None end) s1)).
       { unfold M. apply (M_of_in s _ _ _ _ Hnd Hv1). }
-      split; [exact EM|]. rewrite EM. apply (IH _ l1 s1 Hv1).
+      split; [exact EM|]. split; [|unfold locs; eapply selset_locs_in; exact Hv1]. rewrite EM. apply (IH _ l1 s1 Hv1).
       pose proof (ff_le s p sels k fs _ Hk Hf) as Hle. unfold hs in Hle. simpl in Hle. lia.
   Qed.
 
   Theorem faithful_from_agreement : faithful_locations s d.
   Proof.
     split; [exact Hnd|]. exists M. split.
-    - intros p l sels Hin. split; [apply (M_of_in s _ _ _ _ Hnd Hin)|].
+    - intros p l sels Hin. split; [apply (M_of_in s _ _ _ _ Hnd Hin)|]. split; [|eapply selset_locs_in; exact Hin].
       change (M l) with (M_of s (doc_events s d) l). rewrite (M_of_in s _ _ _ _ Hnd Hin). apply (visited_mok (sels_h sels) p l sels Hin). lia.
     - intros g fm fns Hg. unfold frag_ff in Hg.
       destruct (alookup g (frag_table (doc_defs d))) as [[tc sels]|] eqn:E; [|discriminate]. inversion Hg; subst fm fns. clear Hg.
@@ -274,15 +276,28 @@ Qed.
    taken) *)
 Theorem memo_sound fuel s d M :
   NoDup (selset_locs (doc_events s d)) ->
-  events_ok s M (doc_events s d) ->
-  (forall g fm fns, frag_ff s (frag_table (doc_defs d)) g = Some (fm, fns) -> mok s M fm) ->
+  events_ok s M (selset_locs (doc_events s d)) (doc_events s d) ->
+  (forall g fm fns, frag_ff s (frag_table (doc_defs d)) g = Some (fm, fns) -> mok s M (selset_locs (doc_events s d)) fm) ->
   r25_overlapping_fields fuel s d = Ok [] ->
   exists stf, newcov s (frag_table (doc_defs d)) M (initial_state s d) stf /\
     forall parent l sels, In (ESelSet parent l sels) (doc_events s d) ->
       forall c, In c (selset_calls s parent l sels) -> sat s stf c.
 Proof.
   intros Hnd Hev Hfr H. unfold r25_overlapping_fields in H.
-  destruct (overlap_events_sound s _ M Hfr fuel _ _ H Hev) as [stf [(_ & _ & Hcov) Hsat]].
+  destruct (overlap_events_sound s _ M _ Hfr fuel _ _ H Hev) as [stf [(_ & _ & Hcov) Hsat]].
   - unfold initial_state. simpl. rewrite ff_universe_fst. exact Hnd.
   - exists stf. split; [exact Hcov|exact Hsat].
+Qed.
+
+(* every depth, with the checkable hypotheses *)
+Theorem merge_deep_plain fuel s d :
+  NoDup (selset_locs (doc_events s d)) ->
+  r06_fragments_on_composite s d = [] ->
+  lookups_agree s d ->
+  r25_overlapping_fields fuel s d = Ok [] ->
+  forall parent l sels, In (ESelSet parent l sels) (doc_events s d) ->
+    forall c, In c (selset_calls s parent l sels) -> conflict_free s (frag_table (doc_defs d)) c.
+Proof.
+  intros Hnd H6 Hag. apply merge_deep. apply faithful_from_agreement; [exact Hnd| |exact Hag].
+  apply r06_equiv. exact H6.
 Qed.
